@@ -45,6 +45,15 @@ Theorem C08_append_preserves_plans : forall pw h nf ms psz pcrc h' ps,
 Proof. exact append_preserves_plans. Qed.
 Print Assumptions C08_append_preserves_plans.
 
+(* a base that was read WITHOUT SubStreamsInfo: _real_get_contents installs SubstreamsInfo.default(folders) in the
+   graph (Assign.install_sub) and the session works on that; the earlier plans are those of the graph as parsed *)
+Theorem C08_append_preserves_installed_base : forall pw h nf ms psz pcrc h' ps,
+  base_ok (install_sub h) = true -> impl_plans h = Ok ps -> forallb member_ok ms = true ->
+  append_session pw (install_sub h) nf ms psz pcrc = Ok h' ->
+  impl_plans h' = Ok (ps ++ new_plans (nfiles h) (nfolders h) 0 ms).
+Proof. exact append_preserves_installed_base. Qed.
+Print Assumptions C08_append_preserves_installed_base.
+
 (* the same for a base read from a header that is valid by the format's own reading (Spec.v, AssignProofs.nice):
    its plans are the format's plans (assign_conforms) and the append extends them *)
 Theorem C08_append_preserves_spec_base : forall pw sh nf ms psz pcrc h',
@@ -143,6 +152,29 @@ Example C08_sessions_example :
     append_sessions (reopen_checked 1000 false (fun _ => 100) [99]) false x_foreign [s1; s2] = Ok hk /\
     impl_plans hk = Ok (ps ++ qs) /\ length qs = 4%nat.
 Proof. exact append_sessions_example. Qed.
+
+(* a base without SubStreamsInfo (two folders, the first with a folder-level CRC): opened, appended to, written and
+   read back *)
+Example C08_no_substreams_example :
+  exists bs0 h ps h' bs h2,
+    write_header false 79 x_nosub = Ok bs0 /\
+    open_for_append 1000 [99] bs0 = Ok h /\
+    option_map si_sub (h_streams h) = Some (Some (mkSub [1; 1] None [false; false] [0; 0])) /\
+    install_sub x_nosub =
+      mkHeader (Some (mkStreams (Some (mkPack 0 2 [40; 7] [] []))
+                                (Some [mkFolder [x_lzma2] [] [0] [300] true (Some 11); mkFolder [x_copy] [] [0] [7] false None])
+                                (Some (mkSub [1; 1] None [true; false] [11; 0]))))
+               (h_files x_nosub) (h_emptyfiles x_nosub) /\
+    base_ok (install_sub x_nosub) = true /\ forallb member_ok x_members = true /\
+    impl_plans x_nosub = Ok ps /\
+    map (fun p => (ip_id p, ip_kind p, ip_folder p, ip_offset p, ip_size p, ip_crc p)) ps =
+      [(0, 0, 0, 0, 300, Some 11); (1, 2, -1, 0, 0, None); (2, 0, 1, 0, 7, None)] /\
+    append_session false (install_sub x_nosub) x_newfolder x_members 12 999 = Ok h' /\
+    impl_plans h' = Ok (ps ++ new_plans 3 2 0 x_members) /\
+    reopen_guard 1000 false h' = true /\
+    write_header false 79 h' = Ok bs /\ parse_header 1000 bs = Ok h2 /\
+    impl_plans h2 = Ok (ps ++ new_plans 3 2 0 x_members).
+Proof. exact append_no_substreams_example. Qed.
 
 (* an existing archive whose header cannot be read (here: a valid header with ArchiveProperties) is refused,
    never replaced *)
